@@ -13,6 +13,10 @@ Lemma np_ret {A} (a : A) : np (mret a).
 Proof. intros lg. cbn. discriminate. Qed.
 Lemma np_fail {A} e : np (@mfail A e).
 Proof. intros lg. cbn. discriminate. Qed.
+Lemma np_fail_runtime {A} e : np (@mfail_runtime A e).
+Proof. intros lg. cbn. discriminate. Qed.
+Lemma np_note E b : np (note_clock E b).
+Proof. intros lg. cbn. discriminate. Qed.
 Lemma np_lift {A} (r : res A) : r <> RPanic -> np (mlift r).
 Proof. intros H lg. exact H. Qed.
 Lemma np_bind {A B} (m : M A) (f : A -> M B) : np m -> (forall a, np (f a)) -> np (mbind m f).
@@ -25,6 +29,8 @@ Ltac np_step :=
   match goal with
   | |- np (mret _) => apply np_ret
   | |- np (mfail _) => apply np_fail
+  | |- np (mfail_runtime _) => apply np_fail_runtime
+  | |- np (note_clock _ _) => apply np_note
   | |- np (mbind _ _) => apply np_bind; [|intros]
   | |- np (let '(_, _) := ?p in _) => destruct p
   | |- np (match ?x with _ => _ end) => destruct x
